@@ -203,6 +203,9 @@ C_SUFFIXES = (".c", ".cc", ".cpp")
 
 # files whose static character arrays are inventoried (a path kept in static storage across the master apply can be
 # overwritten by a re-entrant call: seeded change C15-5)
+# globals that feed a file-system call without a check at the use: every store must be guarded where it happens
+GUARDED_GLOBALS = ("inc_list",)
+COPY_CALLS = ("make_shared_string", "string_copy", "alloc_cstring", "xstrdup")
 STATIC_FILES = ("lib/efuns/file_utils.c", "lib/efuns/file.c", "lib/efuns/ed.c", "lib/lpc/program/binaries.c",
                 "lib/lpc/lex.c", "lib/lpc/preprocess.c", "lib/lpc/object.c", "lib/efuns/dumpstat.c", "lib/efuns/dump_prog.c")
 LITERAL_FNS = ("legal_path", "check_valid_path", "inc_lexically_normal", "inc_open", "match_string")
@@ -954,7 +957,7 @@ def _analyze_file(job):
         fa = os.path.realpath(f)
         if fa == main_abs or (f.endswith(C_SUFFIXES) and relname(f) is not None):
             fns.append((n, f, relname(f)))
-    out = dict(rel=rel, included=sorted(included), sites=[], calls=[], addr=[], defs=[], cvp=[], lits=[], ext=[], statics=[])
+    out = dict(rel=rel, included=sorted(included), sites=[], calls=[], addr=[], defs=[], cvp=[], lits=[], ext=[], statics=[], gstores=[])
 
     def char_array(node):
         q = qual(node)
@@ -1029,6 +1032,31 @@ def _analyze_file(job):
                     origins = [_safe_classify(fn, a) for a in args]
                     out["calls"].append(dict(file=frel, tu=rel, caller=fn.name, callee=name, line=line,
                                              origins=origins))
+        # stores into the global include search path `inc_list[..] = X`: X must be 0 or a copy of a local that a
+        # PRECEDING legal_path () call of the same function guards (data flow into the fallback of inc_open)
+        for x in fn.nodes:
+            if x["kind"] == "BinaryOperator" and x.get("opcode") == "=" and len(x.get("inner") or []) == 2:
+                lhs = peel(x["inner"][0])
+                if lhs is None or lhs.get("kind") != "ArraySubscriptExpr":
+                    continue
+                base = peel((lhs.get("inner") or [None])[0])
+                if base is None or base.get("kind") != "DeclRefExpr" or \
+                        (base.get("referencedDecl") or {}).get("name") not in GUARDED_GLOBALS:
+                    continue
+                rhs = peel(x["inner"][1])
+                kind = "other"
+                if rhs is not None and rhs.get("kind") == "IntegerLiteral" and str(rhs.get("value")) == "0":
+                    kind = "null"
+                elif rhs is not None and rhs.get("kind") == "CallExpr" and call_args(rhs):
+                    a0 = call_args(rhs)[0]
+                    v = fn.local_ref(a0)
+                    if v is not None and callee_name(rhs) in COPY_CALLS and \
+                            any(g <= fn.bpos(x) for g in fn.guard_pos.get(v, [])) and \
+                            not any(e["pos"] > max(g for g in fn.guard_pos.get(v, [0]) if g <= fn.bpos(x)) and e["pos"] < fn.bpos(x)
+                                    for e in fn.events.get(v, [])):
+                        kind = "guarded"
+                out["gstores"].append(dict(file=frel, fn=fn.name, glob=(base.get("referencedDecl") or {}).get("name"),
+                                           rhs=cut(fn.text(x["inner"][1]), 60), kind=kind))
         if fn.name in LITERAL_FNS:
             # every character / string literal of the function, in source order (fingerprint of its comparisons)
             lits = []
@@ -1169,9 +1197,11 @@ def analyze(repo, bdir, include_flags, overrides=None, jobs=None):
     cvp_calls, lit_rows = [], []
     ext_callees = set()
     statics = []
+    gstores = []
     for r in results:
         ext_callees.update(r.get("ext", []))
         statics += r.get("statics", [])
+        gstores += r.get("gstores", [])
         cvp_calls += r.get("cvp", [])
         lit_rows += r.get("lits", [])
         scanned.update(r["included"])
@@ -1272,6 +1302,7 @@ def analyze(repo, bdir, include_flags, overrides=None, jobs=None):
                 cvpCalls=sorted(set((c["file"], c["fn"], c["op"], c["flag"]) for c in cvp_calls)),
                 literals=sorted(set((l["fn"], tuple(l["lits"])) for l in lit_rows)),
                 extCallees=sorted(ext_callees - set(FS_CALLEES) - set(FILLS) - set(PASSTHROUGH)),
+                globalStores=sorted(set((x["file"], x["fn"], x["glob"], x["rhs"], x["kind"]) for x in gstores)),
                 staticBufs=sorted(set((x["file"], x["fn"], x["name"], x["type"]) for x in statics
                                       if x["file"] in STATIC_FILES)))
 
@@ -1384,6 +1415,10 @@ def render(res):
                      "functions declared outside the repository (libc, builtins) that take a character pointer (or are "
                      "variadic) and are called from the scanned files, other than the file-system callees searched "
                      "for, the buffer-filling functions and the strchr family the translator interprets"))
+    out.append(llist("globalStores", "(String × String × String × String × String)",
+                     ["(%s, %s, %s, %s, %s)" % tuple(lstr(x) for x in b) for b in res.get("globalStores", [])],
+                     "every store `G[..] = X` into a global path table (inc_list): (file, function, global, X, kind) with "
+                     "kind = null | guarded (copy of a local guarded by a preceding legal_path) | other"))
     out.append(llist("staticBufs", "(String × String × String × String)",
                      ["(%s, %s, %s, %s)" % tuple(lstr(x) for x in b) for b in res.get("staticBufs", [])],
                      "character arrays with static storage duration in the files of the file efuns, the editor, the "
